@@ -409,6 +409,8 @@ def selftest(ctx, jd, cases, bad, rcases, rbad):
     attempt("cb-root", lambda e: e["ev"] == "cb" and e["phase"] == "prepare" and e["set"] == 0,
             lambda e: e.update(root=("a" if e["root"] != "a" else "b")))
     attempt("return-kind", lambda e: e["ev"] == "return" and e["kind"] == "ok", lambda e: e.update(kind="error"))
+    attempt("return-error-dropped", lambda e: e["ev"] == "return" and e["kind"] == "error" and any(x[0] in ("prepare", "vrec") for x in e["errs"]),
+            lambda e: e.update(kind="ok", errs=[]))
     attempt("return-errs", lambda e: e["ev"] == "return" and e["kind"] == "error" and len(e["errs"]) >= 1, lambda e: e["errs"].pop())
     # a dropped callback
     tgt = next((n for n, l in enumerate(flat) if '"finalize"' in l), None)
